@@ -758,4 +758,28 @@ theorem stops_renderRest (rest : List (List Tok)) : Stops (renderRest rest) := b
   | nil => exact Or.inl rfl
   | cons s ss => exact Or.inr ⟨_, rfl⟩
 
+/-! ### style tables -/
+
+theorem lastDef_map {κ α β : Type} [BEq κ] (g : α → β) (defs : List (κ × α)) (k : κ) :
+    lastDef (defs.map fun d => (d.1, g d.2)) k = (lastDef defs k).map g := by
+  induction defs with
+  | nil => rfl
+  | cons d ds ih =>
+    simp only [List.map_cons, lastDef, ih]
+    cases lastDef ds k with
+    | some v => rfl
+    | none =>
+      by_cases h : (d.1 == k) = true
+      · simp [h]
+      · simp [h]
+
+theorem detectAll_wf (defs : List (Nat × Fmt)) (hwf : ∀ d ∈ defs, WF d.2) :
+    detectAll (defs.map fun d => (d.1, render d.2)) = .ok (defs.map fun d => (d.1, classify d.2)) := by
+  induction defs with
+  | nil => rfl
+  | cons d ds ih =>
+    have h1 : detect (render d.2) = .ok (classify d.2) :=
+      scan_wf_section d.2.first (hwf d (by simp)) (renderRest d.2.rest) (stops_renderRest d.2.rest)
+    simp only [List.map_cons, detectAll, h1, ih (fun d hd => hwf d (by simp [hd]))]
+
 end Formats
